@@ -449,11 +449,20 @@ def run_c19(ctx):
         s = gen.empty_state()
         s["bool"] = [g.r.random() < 0.5 for _ in range(4)]; s["int"] = [g.r.randint(-5, 5) for _ in range(3)]
         s["float"] = [g.r.choice([gen.f2b(1.5), gen.f2b(float("inf")), gen.f2b(float("-inf")), 2143289344, gen.f2b(-0.0)]) for _ in range(3)]
-        s["cfg"]["growth_cap"] = g.r.choice([3, 4, 6, 500]); s["cfg"]["max_prog_points"] = g.r.choice([100, 2, 5])
+        # (caps that the unpacking of the program itself - at most ten items in one step - stays below, and that the items
+        # coming back over several LIST.GETs together exceed)
+        s["cfg"]["growth_cap"] = g.r.choice([3, 10, 12, 500]); s["cfg"]["max_prog_points"] = g.r.choice([100, 2, 5])
         inner = {"k": "ivec", "v": [g.r.choice([1, 5, 9]) for _ in range(g.r.randint(1, 4))]}
         outer = {"k": "ivec", "v": [3, g.r.choice([5, 9])]}
         s["exec"] = [lst([inner, ins("LIST.ADD"), outer, ins("LIST.ADD")] + [I(0), ins("LIST.GET")] * (1 + i % 3))]
         cs.append({"id": "listrun-%05d" % i, "pre": s, "acts": [{"a": "copy_to_code"}, {"a": "steps", "k": 40}, {"a": "run_from_start"}]})
+    # a flat record of eight integers read back several times in one run under a cap of ten items per step: no single step
+    # gains more than seven items, all reads together gain many more
+    for k, (gets, cap) in enumerate([(1, 10), (2, 10), (3, 10), (4, 12), (3, 7), (3, 6)]):
+        s = gen.empty_state()
+        s["int"] = list(range(11, 19)); s["cfg"]["growth_cap"] = cap
+        s["exec"] = [lst([{"k": "ivec", "v": [9] * 8}, ins("LIST.ADD")] + [I(0), ins("LIST.GET")] * gets)]
+        cs.append({"id": "listrun-flat-%d" % k, "pre": s, "acts": [{"a": "copy_to_code"}, {"a": "steps", "k": 80}, {"a": "run_from_start"}]})
     run_events(ctx, "list_runs", cs)
 
 
@@ -736,10 +745,11 @@ def run_c06(ctx):
             cs.append({"id": "cutloop-%d-%s" % (k, loop), "pre": s, "acts": [{"a": "copy_to_code"}, {"a": "steps", "k": lim + 3}, {"a": "run_from_start"}]})
     # whole runs of loops that let the state grow by hundreds of items in total (never by more than a few per step), and of
     # loops over bodies of hundreds of points (one item each): the growth cap is about items gained in ONE step
-    for k, n in enumerate((200, 600)):
+    for k, n in enumerate((200, 700)):
         s = gen.empty_state()
+        s["cfg"]["push_limit"] = 4000        # (about four steps per round)
         s["exec"] = [lst([I(n), ins("INDEX.DEFINE"), ins("EXEC.LOOP"), ins("INDEX.CURRENT"), I(99)])]
-        cs.append({"id": "growloop-%d" % n, "pre": s, "acts": [{"a": "copy_to_code"}, {"a": "steps", "k": 1003}, {"a": "run_from_start"}]})
+        cs.append({"id": "growloop-%d" % n, "pre": s, "acts": [{"a": "copy_to_code"}, {"a": "steps", "k": 4003}, {"a": "run_from_start"}]})
     wide = lst([lst([I(j)] * 24) for j in range(25)])          # 626 points, no list longer than 25
     for k, loop in enumerate(("EXEC.LOOP", "EXEC.DUP", "INTVECTOR.LOOP", "EXEC.K")):
         s = gen.empty_state()
@@ -1260,7 +1270,7 @@ def run_c03(ctx):
     # an instruction set that has been in use (parsing, lookups) and is then extended: the new names are instructions from
     # then on, whatever their length
     cs = []
-    late = ["VERIF.LATE*ADDITION*WITH*A*NAME*LONGER*THAN*ALL*THE*OTHERS*TOGETHER", "VERIF.LATE", "\u041f\u041e\u0417\u0414\u041d\u041e.\u0414\u041e\u0411\u0410\u0412\u041b\u0415\u041d\u041d\u0410\u042f*\u0418\u041d\u0421\u0422\u0420\u0423\u041a\u0426\u0418\u042f"]
+    late = ["VERIF.LATE*ADDITION*" + "X" * 130, "VERIF.LATE", "\u041f\u041e\u0417\u0414\u041d\u041e.\u0414\u041e\u0411\u0410\u0412\u041b\u0415\u041d\u041d\u0410\u042f*\u0418\u041d\u0421\u0422\u0420\u0423\u041a\u0426\u0418\u042f"]
     pre = dict(base); pre["exec"] = []
     acts = [{"a": "parse", "text": "( 1 INTEGER.DUP foo VERIF.PROBE )"}]
     for nm in late:
@@ -1576,9 +1586,15 @@ def run_c14(ctx):
     for i in range(40 if q else 1500):
         s = g.state(depth=2)
         # drawn from small sets, so that equal queries (valid and invalid ones) meet in every order
-        s["int"] = [g.r.choice([4, 9, 16, 17, 64, 100]), g.r.choice([0, 3, 8]), g.r.choice([0, 1, 2, 3, 63, 64, 65, 70]), g.r.randint(0, 3)] + s["int"]
+        # operands top first: (value position for *VALS,) size, index, dimensions; every fifth case has exactly 64 dimensions
+        # after clamping (strides up to 2^63: arithmetic that wraps in one build profile and traps in the other)
+        name = g.r.choice(NEIGH)
+        size, dims = (g.r.choice([64, 100, 70]), g.r.choice([64, 64, 65, 100])) if i % 5 == 0 else (g.r.choice([4, 9, 16, 17]), g.r.choice([0, 1, 2, 3, 70]))
+        if i % 5 == 0 and dims > size:
+            size = 64
+        s["int"] = ([g.r.randint(0, 3)] if name != NEIGH[0] else []) + [size, g.r.choice([0, 3, 8]), dims, g.r.randint(0, 3)] + s["int"]
         s["float"] = [gen.f2b(g.r.choice([0.0, 1.0, 1.5, 2.0]))] + s["float"]
-        s["exec"] = [ins(g.r.choice(NEIGH))]
+        s["exec"] = [ins(name)]
         cases.append({"id": "detnb-%05d" % i, "pre": s, "steps": 2})
     # element-wise vector instructions with offsets at the ends of the integer range (arithmetic that wraps in one
     # build profile and traps in the other gives different final states)
